@@ -283,6 +283,27 @@ contains
 end module misc_mod
 """
 
+# character literals that contain the characters the line scanner keys on (; ! & and the other kind of quote)
+PROGRAMS["literals"] = """\
+module lit_mod
+  implicit none
+  character(len=*), parameter :: sep = ";", bang = "! not a comment", amp = "&"
+  character(len=*), parameter :: quote = "it's"
+  character(len=*), parameter :: saying = 'say "hi"; go'
+  integer, parameter :: nlit = 3
+  integer :: after_lit
+contains
+  subroutine show(msg)
+    character(len=*), intent(in) :: msg
+    integer :: k
+    k = len(msg) + len(sep) + nlit
+    print *, "a;b", msg, 'c!d', k
+    if (msg == quote) k = len(saying)
+    after_lit = k + len(bang) + len(amp)
+  end subroutine show
+end module lit_mod
+"""
+
 
 def names():
     return list(PROGRAMS)
